@@ -91,6 +91,11 @@ def check(prog, run):
                 else:
                     run.violation("import-is-local-or-stdlib", c,
                                   "the library imports third-party module %s: it would not import without it" % top, prog.rel(m), node.lineno)
+    stmt_bindings = set(top for name, m in prog.modules.items() for node, tops, chain in import_sites(m.tree) for top in tops if top in BINDINGS)
+    for b in sorted(set(BINDINGS) - stmt_bindings):
+        # no import statement names this binding (it is imported by a call -- importlib.import_module and the like -- or not
+        # at all): there is nothing for the statement rule to guard; that every module still imports without it is (b)
+        run.ok("binding-import-guarded", "no import statement names %s: presence handled dynamically, decided by module-imports" % b)
     run.count("import_statements", nimports)
     run.floor("import statements", nimports, 100)
     # (b) every module imports under all four presence combinations
